@@ -36,6 +36,26 @@ func c04(r *lp.Run) {
 		m.pkg = pkg
 		specs = append(specs, m)
 	}
+	{ // hand-written: one named array used as a required member here and as an optional member there; a
+		// required byte-string member (the recorded classes K21, K23 are decided by these type names)
+		g := NewSchemaGen(rng.Fork(77))
+		g.env["SharedArr"] = &Schema{Type: "array", Items: &Schema{Type: "integer"}}
+		g.env["UsesArrReq"] = &Schema{Type: "object", Props: []Prop{{"req", &Schema{Ref: "SharedArr"}, true}, {"n", &Schema{Type: "integer"}, false}}}
+		g.env["UsesArrOpt"] = &Schema{Type: "object", Props: []Prop{{"opt", &Schema{Ref: "SharedArr"}, false}}}
+		g.env["OnlyReqArr"] = &Schema{Type: "array", Items: &Schema{Type: "integer"}}
+		g.env["UsesOnlyReq"] = &Schema{Type: "object", Props: []Prop{{"req", &Schema{Ref: "OnlyReqArr"}, true}}}
+		g.env["Blob"] = &Schema{Type: "object", Props: []Prop{{"b", &Schema{Type: "string", Format: "byte"}, true}, {"o", &Schema{Type: "string", Format: "byte"}, false}}}
+		hb := &bodySpec{g: g}
+		for _, n := range []string{"UsesArrReq", "UsesArrOpt", "UsesOnlyReq", "Blob"} {
+			hb.ops = append(hb.ops, bodyOp{"h" + n, &Schema{Ref: n}})
+		}
+		if pkg, err := mod.Add("bshared", []byte(hb.doc()), gen.Options{}); err != nil {
+			r.Fail(lp.PropFail{Property: "C04", What: "the generator refuses the hand-written shared-array spec", Input: hb.doc(), Observed: err.Error(), Expected: "generated package"})
+		} else {
+			hb.pkg = pkg
+			specs = append(specs, hb)
+		}
+	}
 	nSpecs := r.N(16, 150)
 	discarded := 0
 	for i := 0; i < nSpecs; i++ {
@@ -118,6 +138,18 @@ func c04Type(r *lp.Run, rng *lp.Rand, drv *gc.Driver, b *bodySpec, name string) 
 		r.Count("c04 "+b.pkg.Name+name+value+fmt.Sprint(one["text"]), kind+":"+c04Branch(one), nontrivial(value))
 		r.PropCheck()
 		fail := func(what, obs, exp string) {
+			if b.pkg.Name == "bshared" {
+				// K21: a named array that some other schema uses as an optional member loses its nil check everywhere
+				if name == "UsesArrReq" && !strings.Contains(fmt.Sprint(one["text"]), `"req"`) {
+					r.Known(lp.PropFail{Property: "C04", Class: "K21", What: what, Input: in, Observed: obs, Expected: exp})
+					return
+				}
+				// K23: a nil byte slice of a required, non-nullable member is written as null
+				if name == "Blob" && strings.Contains(fmt.Sprint(one["text"]), `"b":null`) {
+					r.Known(lp.PropFail{Property: "C04", Class: "K23", What: what, Input: in, Observed: obs, Expected: exp})
+					return
+				}
+			}
 			r.Fail(lp.PropFail{Property: "C04", What: what, Input: in, Observed: obs, Expected: exp})
 		}
 		for _, k := range []string{"driver_panic", "validate_panic", "encode_panic", "decode_panic"} {
